@@ -31,7 +31,17 @@ use std::sync::Arc;
 pub const NAMES: [&str; 64] = [
     "alpha", "beta", "gamma", "delta", "n04", "n05", "n06", "n07", "n08", "n09", "n10", "n11", "n12", "n13", "n14", "n15", "n16", "n17", "n18", "n19", "n20", "n21", "n22", "n23", "n24", "n25", "n26", "n27", "n28", "n29", "n30", "n31", "n32", "n33", "n34", "n35", "n36", "n37", "n38", "n39", "n40", "n41", "n42", "n43", "n44", "n45", "n46", "n47", "n48", "n49", "n50", "n51", "n52", "n53", "n54", "n55", "n56", "n57", "n58", "n59", "n60", "n61", "n62", "n63",
 ];
-pub const SALS: [i32; 3] = [-5, 0, 10];
+/// the first three are the exhaustive alphabet's; the extremes occur in sampled sequences only
+pub const SALS: [i32; 5] = [-5, 0, 10, i32::MIN, i32::MAX];
+
+/// salience index for a sampled add: mostly the three ordinary values, 1 in 6 an extreme
+pub fn pick_sal(rng: &mut Rng) -> u8 {
+    if rng.chance(1, 6) {
+        3 + rng.below(2) as u8
+    } else {
+        rng.below(3) as u8
+    }
+}
 
 #[derive(Clone, Copy, Debug, PartialEq, Eq, Hash)]
 pub enum Op {
@@ -765,7 +775,7 @@ pub fn gen_program(rng: &mut Rng, threads: usize, ops_per_thread: usize) -> Prog
     let gen_op = |rng: &mut Rng| -> Op {
         let n = *rng.pick(&names);
         match rng.below(100) {
-            0..=29 => Op::Add { n, s: rng.below(3) as u8 },
+            0..=29 => Op::Add { n, s: pick_sal(rng) },
             30..=44 => Op::Remove { n },
             45..=54 => Op::Enable { n, on: rng.bool() },
             55..=58 => Op::Clear,
@@ -778,7 +788,7 @@ pub fn gen_program(rng: &mut Rng, threads: usize, ops_per_thread: usize) -> Prog
         }
     };
     let setup: Vec<Op> = (0..rng.below(3))
-        .map(|_| Op::Add { n: *rng.pick(&names), s: rng.below(3) as u8 })
+        .map(|_| Op::Add { n: *rng.pick(&names), s: pick_sal(rng) })
         .collect();
     let threads = (0..threads).map(|_| (0..ops_per_thread).map(|_| gen_op(rng)).collect()).collect();
     Program { setup, threads }
